@@ -19,8 +19,10 @@ state is `tell_pending` folded over them.  For the wrappers the statement is gen
 learner.  LearnerND and IntegratorLearner roll back with `utils.restore` (a snapshot of the attribute
 dictionary): their models (`LND.lean`, `Integ.lean`, tied to the code by the lock-step checks C04 / C07) return the
 state they were given, also when the request fails; the committing half ("equivalent to marking each returned point
-pending") is not proved for these two and is covered by the twin oracle of `harness/props/c09.py`.  Learner2D has
-no Lean model.
+pending") is not proved for these two and is covered by the twin oracle of `harness/props/c09.py`.  Learner2D: see the
+section `l2d` at the end of this file (bookkeeping model `AdaptiveModel/L2D.lean`, tied to the code by the lock-step check
+`harness/l2d_drive.py`): its non-committing ask leaves `data` and `pending_points` exactly as they were, gives the committing
+answer, and is a complete no-op when the request fails - but it REWRITES the private suggestion stack when it returns.
 -/
 set_option linter.unusedSectionVars false
 namespace C09
@@ -176,9 +178,11 @@ end avg1dfull
 
 end C09
 
-/-! ### Learner2D (bookkeeping model `AdaptiveModel/L2D.lean`, added after the header above was written; the geometry is an
-oracle; proofs in `Lemmas/L2D.lean`).  Learner2D is the one learner whose non-committing `ask` is NOT a no-op: it rewrites the
-private suggestion stack. -/
+/-! ### Learner2D (bookkeeping model `AdaptiveModel/L2D.lean`; the geometry is an oracle; proofs in `Lemmas/L2D.lean`).
+Learner2D is the one learner whose non-committing `ask` is NOT a no-op: it rewrites the private suggestion stack.  The model
+follows the code after the two repairs of `ask(n, tell_pending=False)` (e806eb2: points that were pending before the call stay
+pending; 844d031: a request that raises takes back its marks and puts the stack entries back), so `pending_points` is
+untouched for EVERY oracle and state, and a failed request is a no-op. -/
 namespace C09
 section l2d
 open L2D
@@ -191,20 +195,49 @@ theorem l2d_ask_data_and_answer (c : Cfg L) (cands : Oracle V L) (s : State V L)
     (ask c cands s n false).2 = (ask c cands s n true).2 :=
   ⟨ask_data c cands s n commit, ask_npoints c cands s n commit, ask_ret_eq c cands s n⟩
 
-/-- a non-committing `ask` that returns leaves the pending set exactly as it was, provided no stack key is pending (invariant
-of `CandsFresh` histories) and the oracle proposes no pending point (`L2D.Ex.nocommit_ask_can_unpend` without that). -/
-theorem l2d_ask_nocommit_pending (c : Cfg L) (cands : Oracle V L) (hc : CandsNotPending cands) (s : State V L) (n : Nat)
-    (hs : ∀ p ∈ keys s.stack, p ∉ s.pending) {s' : State V L} {ret : List (Nat × L)}
+/-- a non-committing `ask` that returns leaves the pending set EXACTLY as it was - every state, every oracle (no hypothesis on
+stack or candidates any more: `L2D.Ex.nocommit_ask_keeps_prior_pending` is the former counterexample). -/
+theorem l2d_ask_nocommit_pending (c : Cfg L) (cands : Oracle V L) (s : State V L) (n : Nat)
+    {s' : State V L} {ret : List (Nat × L)}
     (h : ask c cands s n false = (s', .ok ret)) : s'.pending = s.pending :=
-  ask_false_pending c cands hc s n hs h
+  ask_false_pending c cands s n h
 
-/-- … in particular along every history with fresh oracles -/
-theorem l2d_ask_nocommit_pending_reach (c : Cfg L) (ops : List (Op V L)) (hops : ∀ op ∈ ops, OpFresh op)
-    (cands : Oracle V L) (hc : CandsFresh cands) (n : Nat) {s' : State V L} {ret : List (Nat × L)}
+/-- … and so does one that raises (`too few points`); with `l2d_ask_data_and_answer` and the previous theorem: whenever a
+non-committing `ask` comes back - with an answer or with an exception - `data` and `pending_points` are what they were. -/
+theorem l2d_ask_nocommit_pending_failed (c : Cfg L) (cands : Oracle V L) (s : State V L) (n : Nat)
+    {s' : State V L} (h : ask c cands s n false = (s', .tooFew)) : s'.pending = s.pending :=
+  ask_false_pending_failed c cands s n h
+
+/-- both outcomes in one statement: unless the loop is stuck for ever (`diverge`: the real call never comes back), the pending
+set after `ask n false` is the pending set before -/
+theorem l2d_ask_nocommit_pending_all (c : Cfg L) (cands : Oracle V L) (s : State V L) (n : Nat)
+    (h : (ask c cands s n false).2 ≠ .diverge) : (ask c cands s n false).1.pending = s.pending := by
+  rcases hr : ask c cands s n false with ⟨s', o⟩
+  cases o with
+  | ok ret => exact ask_false_pending c cands s n hr
+  | tooFew => exact ask_false_pending_failed c cands s n hr
+  | diverge => rw [hr] at h; exact absurd rfl h
+
+/-- … in particular along every history (any oracles) -/
+theorem l2d_ask_nocommit_pending_reach (c : Cfg L) (ops : List (Op V L))
+    (cands : Oracle V L) (n : Nat) {s' : State V L} {ret : List (Nat × L)}
     (h : ask c cands (run c (init c) ops) n false = (s', .ok ret)) :
     s'.pending = (run c (init c) ops).pending ∧ s'.data = (run c (init c) ops).data :=
-  ⟨ask_false_pending c cands hc.1 _ n (inv1_reach c ops hops).stackNotPending h,
+  ⟨ask_false_pending c cands _ n h,
    by have := ask_data c cands (run c (init c) ops) n false; rw [h] at this; exact this⟩
+
+/-- a non-committing `ask` that raises (`too few points`) is a NO-OP: the state afterwards is the state before - `data`,
+`pending_points` and `_stack` (same entries, same order).  Every oracle; the stack has one entry per key (what an
+`OrderedDict` is; every reachable state: next theorem).  `L2D.Ex.too_few_points_unwound` is the former counterexample; the
+committing `ask` that raises still keeps its marks. -/
+theorem l2d_ask_nocommit_failed_noop (c : Cfg L) (cands : Oracle V L) (s : State V L) (n : Nat)
+    (hnd : (keys s.stack).Nodup) {s' : State V L} (h : ask c cands s n false = (s', .tooFew)) : s' = s :=
+  ask_false_failed_noop c cands s n hnd h
+
+/-- … along every history, any oracles, no hypothesis -/
+theorem l2d_ask_nocommit_failed_noop_reach (c : Cfg L) (ops : List (Op V L)) (cands : Oracle V L) (n : Nat)
+    {s' : State V L} (h : ask c cands (run c (init c) ops) n false = (s', .tooFew)) : s' = run c (init c) ops :=
+  ask_false_failed_noop c cands _ n (inv0_run (inv0_init c) ops).stackNodup h
 
 /-- THE MECHANISM, for every oracle and state: the non-committing `ask` gives the answer of the committing one and rewrites
 the stack with `OrderedDict(zip(points[:stack_size], loss_improvements))`, `points` being everything the call collected. -/
@@ -231,13 +264,12 @@ theorem l2d_ask_nocommit_stack_char_reach (c : Cfg L) (hcor : ∀ p ∈ c.corner
       s'.stack = (ret ++ s2.stack).take c.stackSize :=
   ask_false_stack_char_reach c hcor ops hops cands hc n h
 
-/-- when the stack already holds the `n` requested entries, is not longer than `stack_size`, and its first `n` keys are not
-pending, the non-committing `ask` returns the state it was given (`L2D.Ex.nocommit_truncates_long_stack` without the
-`stack_size` guard; `L2D.Ex.nocommit_rewrites_stack` / `nocommit_changes_later_answers` when `n` exceeds the stack). -/
+/-- when the stack already holds the `n` requested entries and is not longer than `stack_size`, the non-committing `ask`
+returns the state it was given - also when some of these entries are pending (`L2D.Ex.nocommit_truncates_long_stack` without
+the `stack_size` guard; `L2D.Ex.nocommit_rewrites_stack` / `nocommit_changes_later_answers` when `n` exceeds the stack). -/
 theorem l2d_ask_nocommit_noop (c : Cfg L) (cands : Oracle V L) (s : State V L) (n : Nat) (hn : n ≤ s.stack.length)
-    (hk : s.stack.length ≤ c.stackSize) (hnd : (keys s.stack).Nodup)
-    (hnp : ∀ p ∈ keys (s.stack.take n), p ∉ s.pending) :
+    (hk : s.stack.length ≤ c.stackSize) (hnd : (keys s.stack).Nodup) :
     ask c cands s n false = (s, .ok (s.stack.take n)) :=
-  ask_false_noop c cands s n hn hk hnd hnp
+  ask_false_noop c cands s n hn hk hnd
 end l2d
 end C09
